@@ -160,8 +160,11 @@ def _recorder_class():
     from msdm.algorithms.rmax import RMAXEventListener
 
     class Recorder(RMAXEventListener):
+        last = None
+
         def __init__(self):
             self.ev = []
+            type(self).last = self
 
         def end_of_timestep(self, local_vars):
             for k in ("s", "a", "r", "ns"):
@@ -218,8 +221,9 @@ def run_real(case):
         return out
     out["rmax"] = int(rmax_f)
     diff = cfg["diff"][0] / cfg["diff"][1]
+    rec_cls = _recorder_class()
     learner = RMAX(episodes=cfg["episodes"], rmax=rmax_f, num_transition_samples=cfg["thr"],
-                   bellman_convergence_diff=diff, seed=cfg["seed"], event_listener_class=_recorder_class())
+                   bellman_convergence_diff=diff, seed=cfg["seed"], event_listener_class=rec_cls)
     import signal
 
     def _alarm(signum, frame):
@@ -255,9 +259,12 @@ def run_real(case):
         out["drift"] = "listener-locals-missing"
     except RunTooLong:
         # a run on <= 7 states and <= 20 episodes normally takes milliseconds; not returning is not a clause
-        # of the statement, so it is reported as drift and the case is skipped (the check must not hang)
-        out["skip"] = f"train_on did not return within {RUN_LIMIT_S}s"
-        out["drift"] = "train_on-did-not-return"
+        # of the statement: the steps experienced so far are judged, the rest is drift (the check must not hang)
+        out["cut"] = True
+        out["events"] = list(rec_cls.last.ev[:400]) if rec_cls.last is not None else []
+        out["q"], out["pol"] = {}, {}
+        out["state_list"] = list(b.mdp.state_list)
+        out["action_list"] = list(b.mdp.action_list)
     except Exception as e:                          # noqa: BLE001 - judged as a failure of the statement
         out["error"] = f"{type(e).__name__}: {e}"[:300]
         out["error_type"] = type(e).__name__
@@ -341,8 +348,12 @@ def to_trace(case, out, tag):
     for s, row in out["q"].items():
         rows[s] = [quant(x, sc, clamp) for x in row]
         pol[s] = out["pol"][s]
-    ev.append({"k": "final", "q": rows, "pol": pol})
-    raw.append(dict(out["q"]))
+    if out.get("cut"):
+        ev.append({"k": "cut"})
+        raw.append(None)
+    else:
+        ev.append({"k": "final", "q": rows, "pol": pol})
+        raw.append(dict(out["q"]))
     vmax = F(rmax) / (1 - g)
     rec = {k: m[k] for k in ("N", "K", "PD", "GN", "GD", "ID", "abs", "avail", "P", "R", "p0")}
     rec.update(thr=thr, rmax=rmax, SC=sc, DQ=math.ceil(diff * sc), actrule="code", tag=tag,
@@ -491,7 +502,7 @@ def py_validate(t):
                 tcnt[s0][a0][n0] += 1
                 rsum[s0][a0] += t["R"][s0][a0][n0]
             cur = ns
-        else:
+        elif e["k"] == "final":
             o, pol = e["q"], e["pol"]
             for x in py_judge_q(t, cnt, tcnt, rsum, o, reach):
                 fail.add((x, pos))
@@ -551,7 +562,7 @@ def judge_cases(ctx, cases, *, mutate=None, confirm=True):
             continue
         out = run_real(c)
         ctx.evaluations += 1
-        if out.get("drift") == "train_on-did-not-return":
+        if out.get("cut"):
             ctx.count("runs_that_did_not_return")
         if "skip" in out:
             ctx.skip(out["skip"])
@@ -582,7 +593,7 @@ def judge_cases(ctx, cases, *, mutate=None, confirm=True):
     #  the number of TrStep / TrEnd / TrFinal actions taken is counted from the traces instead)
     for t in traces:
         for e in t["ev"]:
-            ctx.count({"step": "action:TrStep", "end": "action:TrEnd", "final": "action:TrFinal"}[e["k"]])
+            ctx.count({"step": "action:TrStep", "end": "action:TrEnd", "final": "action:TrFinal", "cut": "action:TrCut"}[e["k"]])
     ctx.count("trace_batches")
     ctx.add_tlc(res, "trace validation of recorded RMAX.train_on runs")
     bad = [v for v in res.violated if v in DESIGN_INVS]
@@ -607,6 +618,14 @@ def judge_cases(ctx, cases, *, mutate=None, confirm=True):
         ctx.count("judge_crosschecks")
         diff = F(c["cfg"]["diff"][0], c["cfg"]["diff"][1])
         g = F(t["GN"], t["GD"])
+        cut = t["ev"][-1]["k"] == "cut"
+        if cut:
+            for tag, pos in sorted(tfail):
+                ctx.violation(signature(c, tag), f"{SITE.get(tag, 'RMAX')}: clause '{tag}' fails at event {pos} of a run that "
+                              f"did not return within {RUN_LIMIT_S}s", {"case": strip(c), "clause": tag, "position": pos})
+            ctx.drift("final:run-did-not-return", {"case": digest(strip(c))})
+            verdicts.append((tfail, tdrift))
+            continue
         if t["orc"] == 1 and not any(x[0].startswith("step") for x in tfail):
             qs = py_fixed_point(t, cnt, tcnt)
             tq = [[frac(x) for x in row] for row in r["qstar"]]
@@ -726,8 +745,8 @@ def run(ctx):
         "and model-checked not to reject the exact machine (JudgeAcceptsMachine)",
         "every TLA+ verdict, the bookkeeping and the exact fixed point are reproduced by an independent Python "
         "implementation (integers / Fractions); a disagreement is a machinery failure"]
-    run_mc(ctx, rng, 30 if quick else 300, 2 if quick else 12)
-    n, nsp = (420, 8) if quick else (6000, 60)
+    run_mc(ctx, rng, 30 if quick else 400, 2 if quick else 16)
+    n, nsp = (420, 8) if quick else (12000, 60)
     cases = make_cases(rng, n, nsp)
     chunk = 1500
     for k in range(0, len(cases), chunk):
